@@ -1074,9 +1074,15 @@ func (self *Analyzer) indexExpression(node pAst.IndexExpression) ast.AnalyzedInd
 		} else {
 			// NOTE: this operation can fail during interpretation
 
-			if index.Kind() == ast.StringLiteralExpressionKind {
+			// parentheses around the key do not matter: `obj[("a")]` is `obj["a"]`
+			indexLiteral := index
+			for indexLiteral.Kind() == ast.GroupedExpressionKind {
+				indexLiteral = indexLiteral.(ast.AnalyzedGroupedExpression).Inner
+			}
+
+			if indexLiteral.Kind() == ast.StringLiteralExpressionKind {
 				objType := base.Type().(ast.ObjectType)
-				indexStr := index.(ast.AnalyzedStringLiteralExpression).Value
+				indexStr := indexLiteral.(ast.AnalyzedStringLiteralExpression).Value
 
 				// check if the object contains this key
 
